@@ -519,7 +519,7 @@ Section Find.
       + match goal with H : node_at _ _ [] _ |- _ => inversion H end.
     - rewrite joinp_cons by discriminate. rewrite walk_elem by exact Hx1.
       pose proof (joinp_valid_nonnil (y :: segs) Hr ltac:(discriminate)) as Hj.
-      destruct (joinp (y :: segs)) as [|c0 r0] eqn:Ej; [congruence|]. rewrite <- Ej.
+      destruct (joinp (y :: segs)) as [|c0 r0] eqn:Ej; [congruence|].
       unfold decide. rewrite Hx2, Hx3.
       destruct (find_dir x (m_dirs m)) as [d|] eqn:Ed.
       + apply find_name in Ed. destruct Ed as (Hin & <-).
@@ -539,3 +539,643 @@ Section Find.
         apply NoDup_app_l in Hnd. exact Hnd.
   Qed.
 End Find.
+
+(* ============================================================================================
+   D. Stat, Open and ReadDir return the tree's nodes *)
+
+Definition info_matches (t : tree) (e : found) (i : info) : Prop :=
+  match e with
+  | FFile f => i = file_info f
+  | FLink l => i = link_info l
+  | FDir d => exists m', lookup (d_dg d) (t_dirs t) = Some m' /\ i = dir_info (d_name d) m'
+  end.
+
+(* what Open returns for a node that is not a symlink *)
+Definition open_node (t : tree) (e : found) : res opened :=
+  match e with
+  | FFile f => match lookup (f_blob f) (t_blobs t) with
+               | Some c => Ok (OpFile (file_info f) c)
+               | None => Err EBlob
+               end
+  | FDir d => match lookup (d_dg d) (t_dirs t) with
+              | Some m => Ok (OpDir (dir_info (d_name d) m) m)
+              | None => Panic
+              end
+  | FLink _ => Err EOther
+  end.
+
+Definition root_node (t : tree) : found := FDir (mk_dnode dot (t_rootdg t)).
+
+(* the node at a path from the root; the empty path is the root itself (reported as ".") *)
+Definition node_at0 (t : tree) (segs : list str) (e : found) : Prop :=
+  match segs with [] => e = root_node t | _ => node_at t (t_root t) segs e end.
+
+(* following symlinks: each target is taken relative to the directory holding the link *)
+Inductive resolves (t : tree) : nat -> list str -> found -> Prop :=
+| RV_here segs e : node_at0 t segs e -> (forall l, e <> FLink l) -> resolves t 0 segs e
+| RV_link ds x l n e : node_at t (t_root t) (ds ++ [x]) (FLink l) -> is_abs (l_target l) = false ->
+    resolves t n (rel_target ds (l_target l)) e -> resolves t (S n) (ds ++ [x]) e.
+
+Lemma with_props_name i p : i_name (with_props i p) = i_name i.
+Proof. reflexivity. Qed.
+
+Section View.
+  Variable t : tree.
+  Hypothesis Hwf : wf_tree t.
+
+  Let Hroot : lookup (t_rootdg t) (t_dirs t) = Some (t_root t) := proj1 Hwf.
+
+  Lemma node_at_dir_stored m segs d : forall dg, lookup dg (t_dirs t) = Some m ->
+    node_at t m segs (FDir d) -> exists m', lookup (d_dg d) (t_dirs t) = Some m'.
+  Proof.
+    intros dg Hm Hn. remember (FDir d) as e eqn:Ee. revert dg Hm. induction Hn; intros dg Hm; try discriminate.
+    - inversion Ee; subst. eapply wf_child; eassumption.
+    - eapply IHHn; eauto.
+  Qed.
+
+  Lemma find_node_complete segs e : node_at t (t_root t) segs e -> find_node t (joinp segs) = Ok e.
+  Proof. intros H. unfold find_node. eapply find_complete; eauto. Qed.
+
+  Lemma find_node_dot : find_node t dot = Ok (root_node t).
+  Proof. reflexivity. Qed.
+
+  Lemma find_node0_complete segs e : node_at0 t segs e -> find_node t (unsplit segs) = Ok e.
+  Proof.
+    destruct segs as [|x segs]; cbn [node_at0 unsplit].
+    - intros ->. apply find_node_dot.
+    - apply find_node_complete.
+  Qed.
+
+  Lemma find_node_exact segs : Forall valid_name segs -> segs <> [] ->
+    (exists e, find_node t (joinp segs) = Ok e /\ node_at t (t_root t) segs e)
+    \/ (find_node t (joinp segs) = Err ENotExist /\ forall e, ~ node_at t (t_root t) segs e).
+  Proof. intros H1 H2. unfold find_node. eapply find_sound; eauto. Qed.
+
+  Lemma info_of_node segs e : node_at t (t_root t) segs e ->
+    exists i, stat_at t (joinp segs) = Ok i /\ info_matches t e i.
+  Proof.
+    intros Hn. unfold stat_at. rewrite (find_node_complete _ _ Hn). destruct e as [f|d|l].
+    - eexists. split; reflexivity.
+    - destruct (node_at_dir_stored _ _ _ _ Hroot Hn) as (m' & Hm'). rewrite Hm'.
+      eexists. split; [reflexivity|]. exists m'. auto.
+    - eexists. split; reflexivity.
+  Qed.
+
+  (* ---- Stat *)
+  Lemma stat_faithful w segs e : fs_wd w = dot -> node_at t (t_root t) segs e ->
+    exists i, fs_stat t w (joinp segs) = Ok i /\ info_matches t e i.
+  Proof.
+    intros Hw Hn. destruct (node_at_valid t Hwf _ _ _ _ Hroot Hn) as (Hv & Hne).
+    unfold fs_stat. rewrite Hw, go_join_dot by assumption. apply info_of_node. exact Hn.
+  Qed.
+
+  Lemma stat_absent w segs : fs_wd w = dot -> Forall valid_name segs -> segs <> [] ->
+    (forall e, ~ node_at t (t_root t) segs e) -> fs_stat t w (joinp segs) = Err ENotExist.
+  Proof.
+    intros Hw Hv Hne Hno. unfold fs_stat, stat_at. rewrite Hw, go_join_dot by assumption.
+    destruct (find_node_exact segs Hv Hne) as [(e & _ & Hn)|(E & _)]; [exfalso; eapply Hno; eauto|].
+    rewrite E. reflexivity.
+  Qed.
+
+  (* ---- Open *)
+  Lemma open_at_nonlink fuel p e : find_node t p = Ok e -> (forall l, e <> FLink l) ->
+    open_at t fuel p = open_node t e.
+  Proof.
+    intros Hf Hl. destruct fuel; cbn [open_at]; rewrite Hf; destruct e; try reflexivity; exfalso; eapply Hl; reflexivity.
+  Qed.
+
+  Lemma open_at_link fuel p l : find_node t p = Ok (FLink l) ->
+    open_at t fuel p =
+      if is_abs (l_target l) then Err EAbs
+      else match fuel with
+           | O => Err ELoop
+           | S f => open_at t f (go_join (go_dir p) (l_target l))
+           end.
+  Proof. intros Hf. destruct fuel; cbn [open_at]; rewrite Hf; reflexivity. Qed.
+
+  (* a symlink is resolved relative to the directory that holds it *)
+  Lemma open_link_step fuel ds x l : node_at t (t_root t) (ds ++ [x]) (FLink l) ->
+    open_at t fuel (joinp (ds ++ [x])) =
+      if is_abs (l_target l) then Err EAbs
+      else match fuel with
+           | O => Err ELoop
+           | S f => open_at t f (unsplit (rel_target ds (l_target l)))
+           end.
+  Proof.
+    intros Hn. rewrite (open_at_link _ _ l) by (apply find_node_complete; exact Hn).
+    destruct (node_at_valid t Hwf _ _ _ _ Hroot Hn) as (Hv & _).
+    apply Forall_app in Hv. destruct Hv as (Hds & Hx). inversion Hx; subst.
+    rewrite go_dir_snoc, go_join_target by assumption. reflexivity.
+  Qed.
+
+  Lemma open_resolves n segs e : resolves t n segs e -> forall fuel, n <= fuel ->
+    open_at t fuel (unsplit segs) = open_node t e.
+  Proof.
+    induction 1 as [segs e Hn Hl | ds x l n e Hn Habs Hr IH]; intros fuel Hfuel.
+    - apply open_at_nonlink; [apply find_node0_complete; exact Hn | exact Hl].
+    - destruct fuel as [|f]; [lia|].
+      replace (unsplit (ds ++ [x])) with (joinp (ds ++ [x])) by (destruct ds; reflexivity).
+      rewrite (open_link_step _ _ _ l) by exact Hn. rewrite Habs. apply IH. lia.
+  Qed.
+
+  (* the final node of a resolution is opened with the tree's data: a file with its blob, a
+     directory with the stored Directory message *)
+  Lemma open_node_ok segs e : node_at0 t segs e -> (forall l, e <> FLink l) ->
+    match e with
+    | FFile f => open_node t e = match lookup (f_blob f) (t_blobs t) with
+                                 | Some c => Ok (OpFile (file_info f) c) | None => Err EBlob end
+    | FDir d => exists m', lookup (d_dg d) (t_dirs t) = Some m'
+                           /\ open_node t e = Ok (OpDir (dir_info (d_name d) m') m')
+    | FLink _ => False
+    end.
+  Proof.
+    intros Hn Hl. destruct e as [f|d|l]; [reflexivity| |eapply Hl; reflexivity].
+    assert (exists m', lookup (d_dg d) (t_dirs t) = Some m') as (m' & Hm').
+    { destruct segs; cbn [node_at0] in Hn.
+      - inversion Hn; subst. cbn [d_dg]. eauto.
+      - eapply node_at_dir_stored; eauto. }
+    exists m'. split; [exact Hm'|]. cbn [open_node]. rewrite Hm'. reflexivity.
+  Qed.
+
+  (* dangling and escaping links: ErrNotExist *)
+  Lemma open_dangling f ds x l : node_at t (t_root t) (ds ++ [x]) (FLink l) -> is_abs (l_target l) = false ->
+    Forall valid_name (rel_target ds (l_target l)) -> rel_target ds (l_target l) <> [] ->
+    (forall e, ~ node_at t (t_root t) (rel_target ds (l_target l)) e) ->
+    open_at t (S f) (joinp (ds ++ [x])) = Err ENotExist.
+  Proof.
+    intros Hn Habs Hv Hne Hno. rewrite (open_link_step _ _ _ l) by exact Hn. rewrite Habs.
+    destruct (find_node_exact _ Hv Hne) as [(e & _ & Hn')|(E & _)]; [exfalso; eapply Hno; eauto|].
+    destruct (rel_target ds (l_target l)) eqn:Er; [congruence|]. cbn [unsplit].
+    destruct f; cbn [open_at]; rewrite E; reflexivity.
+  Qed.
+
+  Lemma find_node_dotdot rest : find_node t (joinp (dotdot :: rest)) = Err ENotExist.
+  Proof.
+    unfold find_node. destruct rest as [|y rest].
+    - reflexivity.
+    - rewrite joinp_cons by discriminate. rewrite walk_elem; [reflexivity|].
+      intros [H|[H|[]]]; discriminate H.
+  Qed.
+
+  Lemma open_escape f ds x l rest : node_at t (t_root t) (ds ++ [x]) (FLink l) -> is_abs (l_target l) = false ->
+    rel_target ds (l_target l) = dotdot :: rest ->
+    open_at t (S f) (joinp (ds ++ [x])) = Err ENotExist.
+  Proof.
+    intros Hn Habs Er. rewrite (open_link_step _ _ _ l) by exact Hn. rewrite Habs, Er. cbn [unsplit].
+    destruct f; cbn [open_at]; rewrite find_node_dotdot; reflexivity.
+  Qed.
+
+  (* ---- ReadDir(-1): exactly the entries of the directory *)
+  Lemma dir_entries_ok ds : (forall d, In d ds -> exists m', lookup (d_dg d) (t_dirs t) = Some m') ->
+    exists L, dir_entries t ds = Ok L /\ map i_name L = map d_name ds
+      /\ forall i, In i L -> exists d m', In d ds /\ lookup (d_dg d) (t_dirs t) = Some m' /\ i = dir_info (d_name d) m'.
+  Proof.
+    induction ds as [|d ds IH]; intros H.
+    - exists []. split; [reflexivity|]. split; [reflexivity|]. intros i [].
+    - destruct (H d (or_introl eq_refl)) as (m' & Hm').
+      destruct IH as (L & HL & Hnames & Hin); [intros; apply H; right; assumption|].
+      exists (dir_info (d_name d) m' :: L). cbn [dir_entries]. rewrite Hm', HL. split; [reflexivity|]. split.
+      + cbn [map]. rewrite Hnames. reflexivity.
+      + intros i [Hi|Hi].
+        * subst i. exists d, m'. split; [left; reflexivity|]. split; [assumption|reflexivity].
+        * destruct (Hin i Hi) as (d' & m'' & H1 & H2 & H3). exists d', m''.
+          split; [right; assumption|]. split; assumption.
+  Qed.
+
+  Lemma listing_exact dg m : lookup dg (t_dirs t) = Some m ->
+    exists L, listing t m = Ok L
+      /\ map i_name L = names m
+      /\ forall i, In i L -> exists e, node_at t m [i_name i] e /\ info_matches t e i.
+  Proof.
+    intros Hm. destruct (dir_entries_ok (m_dirs m)) as (L & HL & Hnames & Hin).
+    { intros d Hd. eapply wf_child; eauto. }
+    exists (L ++ map file_info (m_files m) ++ map link_info (m_links m)).
+    unfold listing. rewrite HL. split; [reflexivity|]. split.
+    - unfold names. rewrite !map_app, Hnames, !map_map. reflexivity.
+    - intros i Hi. rewrite !in_app_iff in Hi. destruct Hi as [Hi|[Hi|Hi]].
+      + destruct (Hin i Hi) as (d & m' & Hd & Hm' & ->). exists (FDir d). split.
+        * unfold dir_info. rewrite with_props_name. cbn [i_name]. constructor. exact Hd.
+        * exists m'. auto.
+      + apply in_map_iff in Hi. destruct Hi as (f & <- & Hf). exists (FFile f). split; [|reflexivity].
+        unfold file_info. rewrite with_props_name. cbn [i_name]. constructor. exact Hf.
+      + apply in_map_iff in Hi. destruct Hi as (l & <- & Hl). exists (FLink l). split; [|reflexivity].
+        unfold link_info. rewrite with_props_name. cbn [i_name]. constructor. exact Hl.
+  Qed.
+
+  Lemma node_at_snoc m segs d m' x e : node_at t m segs (FDir d) -> lookup (d_dg d) (t_dirs t) = Some m' ->
+    node_at t m' [x] e -> node_at t m (segs ++ [x]) e.
+  Proof.
+    intros Hn. remember (FDir d) as e0 eqn:Ee. induction Hn; intros Hm' Hc; try discriminate.
+    - inversion Ee; subst. cbn [app]. econstructor; eassumption.
+    - cbn [app]. econstructor; eauto.
+  Qed.
+
+  (* ==========================================================================================
+     E. nothing crashes; symlink loops and absolute links are errors *)
+
+  Lemma decide_safe dg m name re htd : lookup dg (t_dirs t) = Some m ->
+    match decide t dg (Some m) name re htd with
+    | ARet (Ok (FDir d)) => exists m', lookup (d_dg d) (t_dirs t) = Some m'
+    | ARet (Ok _) => True
+    | ARet (Err e) => e = ENotExist
+    | ARet Panic => False
+    | ADescend dg' mo => re = false /\ exists m', mo = Some m' /\ lookup dg' (t_dirs t) = Some m'
+    | AStay => re = false
+    end.
+  Proof.
+    intros Hm. unfold decide. destruct (str_eqb name dot).
+    { destruct re; [|reflexivity]. cbn [d_dg]. eauto. }
+    destruct (str_eqb name dotdot); [reflexivity|].
+    destruct (find_dir name (m_dirs m)) as [d|] eqn:Ed.
+    { apply find_name in Ed. destruct Ed as (Hin & _). destruct (wf_child t Hwf _ _ _ Hm Hin) as (m' & Hm').
+      destruct re; [eauto|]. split; [reflexivity|]. eauto. }
+    destruct htd; [reflexivity|].
+    destruct (find_file name (m_files m)); [exact I|].
+    destruct (find_link name (m_links m)); [exact I|reflexivity].
+  Qed.
+
+  Definition safe_found (r : res found) : Prop :=
+    match r with
+    | Ok (FDir d) => exists m', lookup (d_dg d) (t_dirs t) = Some m'
+    | Ok _ => True
+    | Err e => e = ENotExist
+    | Panic => False
+    end.
+
+  (* for EVERY byte string p *)
+  Lemma walk_safe p : forall dg m acc, lookup dg (t_dirs t) = Some m -> safe_found (walk t dg (Some m) acc p).
+  Proof.
+    induction p as [|c p IH]; intros dg m acc Hm; cbn [walk].
+    - pose proof (decide_safe dg m (rev acc) true false Hm) as H.
+      destruct (decide t dg (Some m) (rev acc) true false) as [r|dg' mo|].
+      + destruct r as [[f|d|l]|e|]; exact H.
+      + destruct H as (H & _). discriminate H.
+      + discriminate H.
+    - destruct (N.eqb c slash); [|apply IH; exact Hm].
+      pose proof (decide_safe dg m (rev acc) (match p with [] => true | _ => false end) true Hm) as H.
+      destruct (decide t dg (Some m) (rev acc) (match p with [] => true | _ => false end) true) as [r|dg' mo|].
+      + destruct r as [[f|d|l]|e|]; exact H.
+      + destruct H as (_ & m' & -> & Hm'). apply IH. exact Hm'.
+      + apply IH. exact Hm.
+  Qed.
+
+  Lemma find_node_safe p : safe_found (find_node t p).
+  Proof. apply walk_safe. exact Hroot. Qed.
+
+  Definition clean_result {A} (r : res A) : Prop := match r with Panic => False | _ => True end.
+
+  Lemma open_no_panic fuel : forall p, clean_result (open_at t fuel p).
+  Proof.
+    induction fuel as [|f IH]; intros p; cbn [open_at]; pose proof (find_node_safe p) as H;
+      destruct (find_node t p) as [[fl|d|l]|e|]; cbn [safe_found] in H; try exact I; try contradiction.
+    - destruct (lookup (f_blob fl) (t_blobs t)); exact I.
+    - destruct H as (m' & ->). exact I.
+    - destruct (is_abs (l_target l)); exact I.
+    - destruct (lookup (f_blob fl) (t_blobs t)); exact I.
+    - destruct H as (m' & ->). exact I.
+    - destruct (is_abs (l_target l)); [exact I|apply IH].
+  Qed.
+
+  Lemma stat_no_panic p : clean_result (stat_at t p).
+  Proof.
+    unfold stat_at. pose proof (find_node_safe p) as H.
+    destruct (find_node t p) as [[fl|d|l]|e|]; cbn [safe_found] in H; try exact I; try contradiction.
+    destruct H as (m' & ->). exact I.
+  Qed.
+
+  Lemma listing_no_panic o i m fuel p : open_at t fuel p = Ok (OpDir i m) -> o = listing t m -> clean_result o.
+  Proof.
+    intros Ho ->. assert (exists dg, lookup dg (t_dirs t) = Some m) as (dg & Hm).
+    { revert p Ho. induction fuel as [|f IH]; intros p; cbn [open_at]; pose proof (find_node_safe p) as H;
+        destruct (find_node t p) as [[fl|d|l]|e|]; cbn [safe_found] in H; try discriminate.
+      - destruct (lookup (f_blob fl) (t_blobs t)); discriminate.
+      - destruct H as (m' & Hm'). rewrite Hm'. intros E. inversion E; subst. eauto.
+      - destruct (is_abs (l_target l)); discriminate.
+      - destruct (lookup (f_blob fl) (t_blobs t)); discriminate.
+      - destruct H as (m' & Hm'). rewrite Hm'. intros E. inversion E; subst. eauto.
+      - destruct (is_abs (l_target l)); [discriminate|apply IH]. }
+    destruct (listing_exact dg m Hm) as (L & -> & _). exact I.
+  Qed.
+End View.
+
+(* ---- symlink chains (for ANY tree, well-formed or not) ---- *)
+Definition hop (t : tree) (p : str) : option str :=
+  match find_node t p with
+  | Ok (FLink l) => if is_abs (l_target l) then None else Some (go_join (go_dir p) (l_target l))
+  | _ => None
+  end.
+
+Fixpoint hops (t : tree) (n : nat) (p : str) : option str :=
+  match n with
+  | O => Some p
+  | S k => match hop t p with Some q => hops t k q | None => None end
+  end.
+
+Lemma hops_add t a : forall b p, hops t (a + b) p = match hops t a p with Some q => hops t b q | None => None end.
+Proof.
+  induction a as [|a IH]; intros b p; cbn [Nat.add hops]; [reflexivity|].
+  destruct (hop t p); [apply IH|reflexivity].
+Qed.
+
+(* a chain of more than `fuel` symlinks: "too many levels of symbolic links" *)
+Lemma open_long_chain t fuel : forall p, hops t (S fuel) p <> None -> open_at t fuel p = Err ELoop.
+Proof.
+  induction fuel as [|f IH]; intros p H; cbn [hops] in H; unfold hop in H; cbn [open_at];
+    destruct (find_node t p) as [[fl|d|l]|e|]; try congruence;
+    destruct (is_abs (l_target l)); try congruence.
+  apply IH. exact H.
+Qed.
+
+(* a symlink loop (p leads, after j links, to a q that leads back to itself) is an error *)
+Lemma open_loop t p j k q fuel : hops t j p = Some q -> hops t (S k) q = Some q -> open_at t fuel p = Err ELoop.
+Proof.
+  intros Hp Hq. apply open_long_chain.
+  assert (Hcyc : forall n, hops t (n * S k) q = Some q).
+  { induction n as [|n IHn]; [reflexivity|]. cbn [Nat.mul]. rewrite hops_add, Hq. exact IHn. }
+  assert (Hall : forall n, hops t n q <> None).
+  { intros n E. pose proof (Hcyc n) as C. replace (n * S k) with (n + n * k) in C by lia.
+    rewrite hops_add, E in C. discriminate. }
+  destruct (Nat.le_gt_cases j (S fuel)) as [Hle|Hgt].
+  - replace (S fuel) with (j + (S fuel - j)) by lia. rewrite hops_add, Hp. apply Hall.
+  - (* the loop is entered after more than fuel links: p's chain is already too long *)
+    replace j with (S fuel + (j - S fuel)) in Hp by lia. rewrite hops_add in Hp.
+    intros E. rewrite E in Hp. discriminate.
+Qed.
+
+Lemma open_abs t fuel p l : find_node t p = Ok (FLink l) -> is_abs (l_target l) = true -> open_at t fuel p = Err EAbs.
+Proof. intros Hf Ha. destruct fuel; cbn [open_at]; rewrite Hf, Ha; reflexivity. Qed.
+
+(* whatever Open returns successfully is a file or directory node reached by following links *)
+Lemma open_ok_only t fuel : forall p o, open_at t fuel p = Ok o ->
+  exists n q e, n <= fuel /\ hops t n p = Some q /\ find_node t q = Ok e /\ (forall l, e <> FLink l)
+                /\ open_node t e = Ok o.
+Proof.
+  induction fuel as [|f IH]; intros p o; cbn [open_at]; destruct (find_node t p) as [[fl|d|l]|e|] eqn:Ef; try discriminate.
+  - intros H. exists 0, p, (FFile fl). repeat split; auto; discriminate.
+  - intros H. exists 0, p, (FDir d). repeat split; auto; discriminate.
+  - destruct (is_abs (l_target l)); discriminate.
+  - intros H. exists 0, p, (FFile fl). repeat split; auto; try lia; discriminate.
+  - intros H. exists 0, p, (FDir d). repeat split; auto; try lia; discriminate.
+  - destruct (is_abs (l_target l)) eqn:Ea; [discriminate|]. intros H.
+    destruct (IH _ _ H) as (n & q & e & Hn & Hh & Hq & Hl & Ho).
+    exists (S n), q, e. repeat split; auto; try lia.
+    cbn [hops]. unfold hop. rewrite Ef, Ea. exact Hh.
+Qed.
+
+(* ============================================================================================
+   F. the two io/fs contracts the code does not keep, and what holds instead *)
+
+(* io/fs.ValidPath (without its UTF-8 requirement) *)
+Definition valid_elem (x : str) : bool := negb (str_eqb x [] || str_eqb x dot || str_eqb x dotdot).
+Definition valid_path (p : str) : bool := str_eqb p dot || forallb valid_elem (split p).
+
+Definition opened_info (o : opened) : info := match o with OpFile i _ => i | OpDir i _ => i end.
+
+(* Stat agrees with Open+Stat whenever the name is not a symlink *)
+Lemma stat_open_nonlink t fuel p e o : find_node t p = Ok e -> (forall l, e <> FLink l) ->
+  open_at t fuel p = Ok o -> stat_at t p = Ok (opened_info o).
+Proof.
+  intros Hf Hl Ho. rewrite (open_at_nonlink t fuel p e Hf Hl) in Ho. unfold stat_at. rewrite Hf.
+  destruct e as [f|d|l]; cbn [open_node] in Ho.
+  - destruct (lookup (f_blob f) (t_blobs t)); inversion Ho; reflexivity.
+  - destruct (lookup (d_dg d) (t_dirs t)); inversion Ho; reflexivity.
+  - discriminate.
+Qed.
+
+(* ---- an executable well-formedness check (for the concrete witnesses) ---- *)
+Definition valid_nameb (x : str) : bool :=
+  negb (str_eqb x []) && negb (existsb (N.eqb slash) x) && negb (str_eqb x dot) && negb (str_eqb x dotdot).
+
+Fixpoint nodupb (l : list str) : bool :=
+  match l with [] => true | x :: r => negb (existsb (str_eqb x) r) && nodupb r end.
+
+Definition wf_dirb (t : tree) (m : mdir) : bool :=
+  nodupb (names m) && forallb valid_nameb (names m)
+  && forallb (fun d => match lookup (d_dg d) (t_dirs t) with Some _ => true | None => false end) (m_dirs m).
+
+Definition wf_treeb (t : tree) : bool := forallb (fun kv => wf_dirb t (snd kv)) (t_dirs t).
+
+Lemma lookup_In {A} k (l : list (N * A)) v : lookup k l = Some v -> In (k, v) l.
+Proof.
+  induction l as [|[k' v'] l IH]; cbn [lookup]; [discriminate|].
+  destruct (N.eqb_spec k k') as [->|_]; [intros E; inversion E; left; reflexivity|right; auto].
+Qed.
+
+Lemma nodupb_sound l : nodupb l = true -> NoDup l.
+Proof.
+  induction l as [|x l IH]; cbn [nodupb]; intros H; [constructor|].
+  apply andb_prop in H. destruct H as (H1 & H2). constructor; [|auto].
+  intros Hin. apply Bool.negb_true_iff in H1.
+  assert (existsb (str_eqb x) l = true) by (apply existsb_exists; exists x; split; [exact Hin|apply str_eqb_refl]).
+  congruence.
+Qed.
+
+Lemma valid_nameb_sound x : valid_nameb x = true -> valid_name x.
+Proof.
+  unfold valid_nameb. intros H. repeat (apply andb_prop in H; destruct H as (H & ?)).
+  rewrite Bool.negb_true_iff in *. repeat split.
+  - apply str_eqb_neq. assumption.
+  - intros Hin. assert (existsb (N.eqb slash) x = true) by (apply existsb_exists; exists slash; split; [exact Hin|apply N.eqb_refl]).
+    congruence.
+  - apply str_eqb_neq. assumption.
+  - apply str_eqb_neq. assumption.
+Qed.
+
+Lemma wf_treeb_sound t : lookup (t_rootdg t) (t_dirs t) = Some (t_root t) -> wf_treeb t = true -> wf_tree t.
+Proof.
+  intros Hr Hb. split; [exact Hr|]. intros dg m Hm. apply lookup_In in Hm.
+  unfold wf_treeb in Hb. rewrite forallb_forall in Hb. specialize (Hb _ Hm). cbn [snd] in Hb.
+  unfold wf_dirb in Hb. apply andb_prop in Hb. destruct Hb as (Hb & H3). apply andb_prop in Hb. destruct Hb as (H1 & H2).
+  split.
+  - split; [apply nodupb_sound; exact H1|]. apply Forall_forall. intros x Hx.
+    rewrite forallb_forall in H2. apply valid_nameb_sound. auto.
+  - intros d Hd. rewrite forallb_forall in H3. specialize (H3 _ Hd).
+    destruct (lookup (d_dg d) (t_dirs t)) as [m'|]; [eauto|discriminate].
+Qed.
+
+(* ---- a concrete tree:  foo, l -> foo, a -> b, b -> a, abs -> /etc/passwd, up1 -> d/up,
+        d/ (f, up -> ../foo, out -> ../../x, dang -> nope) ---- *)
+Definition ex_d : mdir :=
+  mk_mdir [] [mk_fnode (s "f") 0 4 (Some 420%N, None)]
+          [mk_lnode (s "up") (s "../foo") (None, None); mk_lnode (s "out") (s "../../x") (None, None);
+           mk_lnode (s "dang") (s "nope") (None, None)] (Some 493%N, Some 1000%Z).
+Definition ex_root : mdir :=
+  mk_mdir [mk_dnode (s "d") 1] [mk_fnode (s "foo") 1 3 (None, None)]
+          [mk_lnode (s "l") (s "foo") (None, None); mk_lnode (s "a") (s "b") (None, None);
+           mk_lnode (s "b") (s "a") (None, None); mk_lnode (s "abs") (s "/etc/passwd") (None, None);
+           mk_lnode (s "up1") (s "d/up") (None, None)] (None, None).
+Definition ex_tree : tree :=
+  mk_tree ex_root 0 [(0%N, ex_root); (1%N, ex_d)] [(0%N, s "in f"); (1%N, s "bar")].
+
+Lemma ex_tree_wf : wf_tree ex_tree.
+Proof. apply wf_treeb_sound; vm_compute; reflexivity. Qed.
+
+(* 4. "Open should reject names that are not fs.ValidPath" - it does not *)
+Definition rejects_invalid_names (t : tree) : Prop :=
+  forall w name, valid_path name = false ->
+    (exists e, fs_open t w name = Err e) /\ (exists e, fs_stat t w name = Err e).
+
+Lemma invalid_name_accepted : ~ rejects_invalid_names ex_tree.
+Proof.
+  intros H. destruct (H (WNew dot) (s "/foo") eq_refl) as ((e & He) & _).
+  vm_compute in He. discriminate He.
+Qed.
+
+(* 5. "Stat is the same as Open+Stat, even for symlinks" - not for symlinks *)
+Definition stat_agrees_with_open (t : tree) : Prop :=
+  forall w name o, fs_open t w name = Ok o -> fs_stat t w name = Ok (opened_info o).
+
+Lemma stat_of_symlink_differs : ~ stat_agrees_with_open ex_tree.
+Proof.
+  intros H. specialize (H (WNew dot) (s "l") _ eq_refl). vm_compute in H. discriminate H.
+Qed.
+
+(* ============================================================================================
+   The parts of the statement, and their proofs *)
+
+Definition faithful_view (t : tree) : Prop :=
+  (* Stat of a node path: that node (a symlink as a symlink) *)
+  (forall w segs e, fs_wd w = dot -> node_at t (t_root t) segs e ->
+     exists i, fs_stat t w (joinp segs) = Ok i /\ info_matches t e i)
+  (* no node: ErrNotExist from both *)
+  /\ (forall w segs, fs_wd w = dot -> Forall valid_name segs -> segs <> [] ->
+        (forall e, ~ node_at t (t_root t) segs e) ->
+        fs_stat t w (joinp segs) = Err ENotExist /\ fs_open t w (joinp segs) = Err ENotExist)
+  (* Open of a path that resolves through n <= maxSymlinks links (each relative to its
+     directory) to a file or directory: that file with its blob / that directory *)
+  /\ (forall w n segs e, fs_wd w = dot -> resolves t n segs e -> n <= max_symlinks ->
+        fs_open t w (unsplit segs) = open_node t e
+        /\ match e with
+           | FFile f => open_node t e = match lookup (f_blob f) (t_blobs t) with
+                                        | Some c => Ok (OpFile (file_info f) c) | None => Err EBlob end
+           | FDir d => exists m', lookup (d_dg d) (t_dirs t) = Some m'
+                                  /\ open_node t e = Ok (OpDir (dir_info (d_name d) m') m')
+           | FLink _ => False
+           end)
+  (* ReadDir(-1) of a stored directory: one entry per child, no other, each with the child's info *)
+  /\ (forall dg m, lookup dg (t_dirs t) = Some m ->
+        exists L, listing t m = Ok L /\ map i_name L = names m
+          /\ forall i, In i L -> exists e, node_at t m [i_name i] e /\ info_matches t e i)
+  (* whatever Open returns is a file or directory node reached by following links *)
+  /\ (forall w name o, fs_open t w name = Ok o ->
+        exists n q e, n <= max_symlinks /\ hops t n (go_join (fs_wd w) name) = Some q
+          /\ find_node t q = Ok e /\ (forall l, e <> FLink l) /\ open_node t e = Ok o).
+
+Definition fails_cleanly (t : tree) : Prop :=
+  (* no call crashes, for any working directory and any byte string as name *)
+  (forall w name, clean_result (fs_open t w name) /\ clean_result (fs_stat t w name))
+  /\ (forall w name i m, fs_open t w name = Ok (OpDir i m) -> clean_result (listing t m))
+  (* a symlink loop, entered after any number of links, is an error *)
+  /\ (forall w name j k q, hops t j (go_join (fs_wd w) name) = Some q -> hops t (S k) q = Some q ->
+        fs_open t w name = Err ELoop)
+  (* more than maxSymlinks links in a row: error *)
+  /\ (forall w name, hops t (S max_symlinks) (go_join (fs_wd w) name) <> None -> fs_open t w name = Err ELoop)
+  (* an absolute symlink is an error *)
+  /\ (forall w name l, find_node t (go_join (fs_wd w) name) = Ok (FLink l) -> is_abs (l_target l) = true ->
+        fs_open t w name = Err EAbs).
+
+Definition readdir_contract : Prop :=
+  (* paging with any n > 0 from the start: the pages concatenate to the listing, then io.EOF *)
+  (forall all n, (0 < n)%Z -> drain all 0 n (S (length all)) = (all, true))
+  /\ (forall all n, (0 < n)%Z -> readdir all (length all) n = (([], true), length all))
+  (* any mixture of calls: what was returned so far is exactly the entries below the offset *)
+  /\ (forall all ns, readdir_off all 0 ns <= length all
+        /\ concat (map fst (readdir_seq all 0 ns)) = firstn (readdir_off all 0 ns) all)
+  (* one call *)
+  /\ (forall all off n pg eof off', off <= length all -> readdir all off n = ((pg, eof), off') ->
+        off <= off' <= length all
+        /\ pg = firstn (off' - off) (skipn off all)
+        /\ ((n <= 0)%Z -> off' = length all /\ eof = false)
+        /\ ((0 < n)%Z -> (eof = true <-> off = length all) /\ (eof = true -> pg = [])
+                        /\ length pg <= Z.to_nat n /\ (off < length all -> pg <> []))).
+
+Definition stat_agrees_with_open_nonlink (t : tree) : Prop :=
+  forall w name e o, find_node t (go_join (fs_wd w) name) = Ok e -> (forall l, e <> FLink l) ->
+    fs_open t w name = Ok o -> fs_stat t w name = Ok (opened_info o).
+
+Lemma faithful_view_holds t : wf_tree t -> faithful_view t.
+Proof.
+  intros Hwf. split; [|split; [|split; [|split]]].
+  - intros w segs e Hw Hn. eapply stat_faithful; eauto.
+  - intros w segs Hw Hv Hne Hno. split; [eapply stat_absent; eauto|].
+    unfold fs_open. rewrite Hw, go_join_dot by assumption.
+    destruct (find_node_exact t Hwf segs Hv Hne) as [(e & _ & Hn)|(E & _)]; [exfalso; eapply Hno; eauto|].
+    unfold max_symlinks. destruct Gen.CasFs.max_symlinks; cbn [open_at]; rewrite E; reflexivity.
+  - intros w n segs e Hw Hr Hn. split.
+    + unfold fs_open. rewrite Hw.
+      replace (go_join dot (unsplit segs)) with (unsplit segs).
+      * eapply open_resolves; eauto.
+      * destruct segs as [|x segs]; [reflexivity|]. symmetry.
+        assert (Hv : Forall valid_name (x :: segs)).
+        { inversion Hr; subst.
+          - cbn [node_at0] in H. eapply node_at_valid; eauto. apply (proj1 Hwf).
+          - eapply node_at_valid; eauto. apply (proj1 Hwf). }
+        apply go_join_dot; [exact Hv|discriminate].
+    + assert (exists segs', node_at0 t segs' e /\ forall l, e <> FLink l) as (segs' & Hn' & Hl).
+      { clear Hn. induction Hr; eauto. }
+      eapply open_node_ok; eauto.
+  - intros dg m Hm. eapply listing_exact; eauto.
+  - intros w name o Ho. apply open_ok_only. exact Ho.
+Qed.
+
+Lemma fails_cleanly_holds t : wf_tree t -> fails_cleanly t.
+Proof.
+  intros Hwf. split; [|split; [|split; [|split]]].
+  - intros w name. split; [apply open_no_panic | apply stat_no_panic]; exact Hwf.
+  - intros w name i m Ho. eapply listing_no_panic; eauto.
+  - intros w name j k q Hp Hq. eapply open_loop; eauto.
+  - intros w name H. apply open_long_chain. exact H.
+  - intros w name l Hf Ha. eapply open_abs; eauto.
+Qed.
+
+Lemma readdir_contract_holds : readdir_contract.
+Proof.
+  split; [|split; [|split]].
+  - intros all n Hn. rewrite drain_all; [reflexivity|exact Hn|lia|lia].
+  - intros all n Hn. apply readdir_eof_stays. exact Hn.
+  - intros all ns. destruct (readdir_seq_prefix all ns 0 ltac:(lia)) as ((_ & H1) & H2).
+    split; [exact H1|]. rewrite H2, Nat.sub_0_r. reflexivity.
+  - intros all off n pg eof off' Hoff Hr. eapply readdir_spec; eauto.
+Qed.
+
+Lemma stat_agrees_nonlink_holds t : stat_agrees_with_open_nonlink t.
+Proof. intros w name e o Hf Hl Ho. eapply stat_open_nonlink; eauto. Qed.
+
+(* the full statement is false: the two io/fs contracts above *)
+Lemma statement_refuted :
+  ~ (forall t, wf_tree t ->
+       faithful_view t /\ fails_cleanly t /\ readdir_contract /\ rejects_invalid_names t /\ stat_agrees_with_open t).
+Proof. intros H. destruct (H ex_tree ex_tree_wf) as (_ & _ & _ & H4 & _). exact (invalid_name_accepted H4). Qed.
+
+Lemma statement_partial :
+  forall t, wf_tree t ->
+    faithful_view t /\ fails_cleanly t /\ readdir_contract /\ stat_agrees_with_open_nonlink t.
+Proof.
+  intros t Hwf. split; [apply faithful_view_holds; exact Hwf|]. split; [apply fails_cleanly_holds; exact Hwf|].
+  split; [apply readdir_contract_holds|apply stat_agrees_nonlink_holds].
+Qed.
+
+(* ---- non-vacuity on the concrete tree ---- *)
+Lemma ex_resolves_up1 : resolves ex_tree 2 [s "up1"] (FFile (mk_fnode (s "foo") 1 3 (None, None))).
+Proof.
+  pose (l1 := mk_lnode (s "up1") (s "d/up") (None, None)).
+  pose (l2 := mk_lnode (s "up") (s "../foo") (None, None)).
+  pose (f := mk_fnode (s "foo") 1 3 (None, None)).
+  assert (H1 : node_at ex_tree (t_root ex_tree) ([] ++ [s "up1"]) (FLink l1)).
+  { exact (NA_link ex_tree ex_root l1 ltac:(cbn; auto 10)). }
+  assert (H2 : node_at ex_tree (t_root ex_tree) ([s "d"] ++ [s "up"]) (FLink l2)).
+  { refine (NA_step ex_tree ex_root (mk_dnode (s "d") 1) ex_d [s "up"] _ ltac:(cbn; auto) eq_refl _).
+    exact (NA_link ex_tree ex_d l2 ltac:(cbn; auto)). }
+  assert (H3 : node_at0 ex_tree [s "foo"] (FFile f)).
+  { exact (NA_file ex_tree ex_root f ltac:(cbn; auto)). }
+  exact (RV_link ex_tree [] (s "up1") l1 1 _ H1 eq_refl
+           (RV_link ex_tree [s "d"] (s "up") l2 0 _ H2 eq_refl
+              (RV_here ex_tree [s "foo"] (FFile f) H3 ltac:(discriminate)))).
+Qed.
+
+Lemma ex_loop : hops ex_tree 0 (s "a") = Some (s "a") /\ hops ex_tree 2 (s "a") = Some (s "a")
+  /\ fs_open ex_tree (WNew dot) (s "a") = Err ELoop
+  /\ fs_open ex_tree (WNew dot) (s "abs") = Err EAbs
+  /\ fs_open ex_tree (WNew dot) (s "d/out") = Err ENotExist
+  /\ fs_open ex_tree (WNew dot) (s "up1") = Ok (OpFile (mk_info (s "foo") 3 0 None) (s "bar")).
+Proof. vm_compute. repeat split. Qed.
